@@ -162,6 +162,7 @@ where
                             } else {
                                 let mut current_param = match current.parse::<u64>() {
                                     Ok(val) => val,
+                                    Err(_) if !current.is_empty() => 9999,
                                     _ => 0,
                                 };
                                 current_param = u64::min(current_param, 9999);
@@ -292,6 +293,7 @@ where
                             } else {
                                 let mut current_param = match current.parse::<u64>() {
                                     Ok(val) => val,
+                                    Err(_) if !current.is_empty() => 9999,
                                     _ => 0,
                                 };
                                 current_param = u64::min(current_param, 9999);
